@@ -20,7 +20,7 @@
   conv → BatchNormalization(center=False) (C15_callable, C15_center_false_regression; C15_fold_identity
   has no hypothesis on beta any more).
 
-  Fixed (8710a09): QConv2DBatchnorm accepted `data_format` and did not forward it to QConv2D, so
+  Fixed (90019a5): QConv2DBatchnorm accepted `data_format` and did not forward it to QConv2D, so
   the layer took the process-wide image data format whatever was asked for.  Both constructors now
   build the requested layout, an omitted argument meaning the process-wide format (§8:
   C15_ctor_data_format, C15_ctor_fold_identity, regression witness
@@ -465,7 +465,7 @@ example : foldSites [⟨.input, []⟩, ⟨.conv2d, [0]⟩, ⟨.bn, [1]⟩, ⟨.o
   index `chan` used by `bias_add` and by the batch norm all follow the layout).  The constructors of
   BOTH classes build the layout that was asked for; an omitted `data_format` is the process-wide
   `K.image_data_format()` of the moment of construction (`ctorCfg`, `resolveFormat`).
-  Fixed (8710a09): `QConv2DBatchnorm.__init__` used to accept `data_format` and drop it, so the
+  Fixed (90019a5): `QConv2DBatchnorm.__init__` used to accept `data_format` and drop it, so the
   layer took the process-wide format whatever was asked for (C15_conv_data_format_fixed_witness). -/
 
 /-- a channels_first depthwise layer is not the channels_last one on the same flat data (the layout
@@ -483,7 +483,7 @@ example : convThenBN exDwCF (fun _ => 1) [1, 2, 3, 4] = [1, 2, 30, 40] := by dec
 
 /-- THE CONSTRUCTORS HONOUR `data_format` (both classes, every process-wide setting): the layer
     that is built has the REQUESTED layout, or the process-wide one when the argument is omitted;
-    nothing else of the configuration changes.  (Full statement; before fix 8710a09 only
+    nothing else of the configuration changes.  (Full statement; before fix 90019a5 only
     `_partial`: the conv class ignored the argument.) -/
 theorem C15_ctor_data_format (globalCF : Bool) (df : Option Bool) (c : LayerCfg) :
     (ctorCfg globalCF df c).g.cf = (match df with | some f => f | none => globalCF) ∧
@@ -526,7 +526,7 @@ theorem C15_ctor_fold_identity (L : Folded) (globalCF : Bool) (df : Option Bool)
       = some (convThenBN (L.requested globalCF df) rs x) :=
   C15_fold_identity (L.requested globalCF df) rs bs x hq hb ha
 
-/-- REGRESSION WITNESS of the repaired defect (finding C15-conv-data-format-ignored, fix 8710a09):
+/-- REGRESSION WITNESS of the repaired defect (finding C15-conv-data-format-ignored, fix 90019a5):
     `QConv2DBatchnorm(2, (1,1), data_format="channels_first")` under the default process-wide format,
     input of shape (1,2,2,2), kernel [[1,2],[10,20]] (cin x cout), identity batch norm.  The old
     constructor built the channels_last layer, which returns [21,42,43,86,65,130,87,174]; the layer
